@@ -79,11 +79,17 @@ fn kind_name(i: &Instr) -> String {
 /// the tree, by plain recursion over LocalFunction::block (depth-limited callers only)
 pub fn tree_of(f: &LocalFunction) -> Json {
     let mut seqs: HashMap<usize, Json> = HashMap::new();
+    // the type id a sequence's own (multi-value) block type names, read off the field
+    let mut tys: HashMap<usize, i64> = HashMap::new();
     let mut todo = vec![f.entry_block()];
     while let Some(s) = todo.pop() {
         if seqs.contains_key(&s.index()) {
             continue;
         }
+        tys.insert(s.index(), match f.block(s).ty {
+            InstrSeqType::MultiValue(t) => t.index() as i64,
+            InstrSeqType::Simple(_) => -1,
+        });
         let mut items = vec![];
         for (ins, _loc) in f.block(s).instrs.iter() {
             let kids: Vec<usize> = match ins {
@@ -109,7 +115,8 @@ pub fn tree_of(f: &LocalFunction) -> Json {
     // sequences as an id-indexed array (missing ids = not part of this function's tree)
     let max = seqs.keys().copied().max().unwrap_or(0);
     let arr: Vec<Json> = (0..=max).map(|k| seqs.get(&k).cloned().unwrap_or(json!([]))).collect();
-    json!({"entry": f.entry_block().index(), "seqs": arr})
+    let tyarr: Vec<i64> = (0..=max).map(|k| tys.get(&k).copied().unwrap_or(-1)).collect();
+    json!({"entry": f.entry_block().index(), "seqs": arr, "tys": tyarr})
 }
 
 #[derive(Default)]
